@@ -47,7 +47,7 @@ func ops() []op {
 			out = append(out, op{kind: "cstyle", cs: cs, col: col})
 		}
 	}
-	out = append(out, op{kind: "title"}, op{kind: "hostiletitle"}, op{kind: "showcursor"}, op{kind: "hidecursor"}, op{kind: "draw"}, op{kind: "suspend"}, op{kind: "resume"}, op{kind: "fini"})
+	out = append(out, op{kind: "title"}, op{kind: "hostiletitle"}, op{kind: "emptywindow"}, op{kind: "showcursor"}, op{kind: "hidecursor"}, op{kind: "draw"}, op{kind: "suspend"}, op{kind: "resume"}, op{kind: "fini"})
 	return out
 }
 
@@ -350,6 +350,11 @@ func (s *sys) Apply(i int) (sig, desc string) {
 		// will switch off again (DECSCNM here)
 		s.s.SetTitle("t\a\x1b[?5h")
 		s.m.title = ""
+	case "emptywindow":
+		// the window has no columns for the time of one Show (a pane squeezed away and back)
+		s.tty.SetSize(0, 2)
+		s.s.Show()
+		s.tty.SetSize(4, 2)
 	case "showcursor":
 		s.s.ShowCursor(0, 0)
 	case "hidecursor":
